@@ -42,15 +42,31 @@ func (s *Sim) interfere(q Interf, phase string) {
 			subject = "query/" + q.Path
 			h := s.tipMinus(q.Height)
 			addr := s.key(q.Key).String()
+			hv := s.viewAt(h) // what block h committed (C09: a read at height h sees exactly that)
+			if h <= s.cfg.UpgradeHeight {
+				hv = nil // legacy-codec era: not judged
+			}
 			switch q.Path {
 			case "balance":
-				_, _ = n.App.QueryBalance(addr, h)
+				got, err := n.App.QueryBalance(addr, h)
+				if hv != nil && err == nil {
+					s.res.Probe("historical_answer_checked")
+					if want := hv.Balance(addr); !got.Equal(want) {
+						s.violate("C09", "historical-answer", "balance", fmt.Sprintf("tip %d: balance of %s at height %d answered %s, block %d committed %s", s.drv.Height, addr, h, got, h, want))
+					}
+				}
 			case "account":
 				_, _ = n.App.QueryAccount(addr, h)
 			case "node":
-				_, _ = n.App.QueryNode(addr, h)
+				got, err := n.App.QueryNode(addr, h)
+				if hv != nil {
+					s.judgeHistoricalNode("node", addr, h, hv, got, err == nil)
+				}
 			case "app":
-				_, _ = n.App.QueryApp(addr, h)
+				got, err := n.App.QueryApp(addr, h)
+				if hv != nil {
+					s.judgeHistoricalApp("app", addr, h, hv, got, err == nil)
+				}
 			case "nodes":
 				_, _ = n.App.QueryNodes(h, nodesTypes.QueryValidatorsParams{Page: 1, Limit: 100})
 			case "apps":
@@ -74,12 +90,28 @@ func (s *Sim) interfere(q Interf, phase string) {
 				// the ABCI custom-query route (what CLI/light clients reach through abci_query); its
 				// context is not a PrevCtx even at a past height
 				a, _ := sdk.AddressFromHex(addr)
-				_ = n.App.Query(abci.RequestQuery{Path: "custom/application/application", Data: appsTypes.ModuleCdc.MustMarshalJSON(appsTypes.QueryAppParams{Address: a}), Height: h})
+				r := n.App.Query(abci.RequestQuery{Path: "custom/application/application", Data: appsTypes.ModuleCdc.MustMarshalJSON(appsTypes.QueryAppParams{Address: a}), Height: h})
+				if hv := s.viewAt(h); hv != nil && h > s.cfg.UpgradeHeight {
+					var got appsTypes.Application
+					ok := r.Code == 0 && appsTypes.ModuleCdc.UnmarshalJSON(r.Value, &got) == nil
+					if r.Code == 0 && !ok {
+						break
+					}
+					s.judgeHistoricalApp("custom_app", addr, h, hv, got, ok)
+				}
 			case "custom_apps":
 				_ = n.App.Query(abci.RequestQuery{Path: "custom/application/applications", Data: appsTypes.ModuleCdc.MustMarshalJSON(appsTypes.QueryApplicationsWithOpts{Page: 1, Limit: 100}), Height: h})
 			case "custom_node":
 				a, _ := sdk.AddressFromHex(addr)
-				_ = n.App.Query(abci.RequestQuery{Path: "custom/pos/validator", Data: nodesTypes.ModuleCdc.MustMarshalJSON(nodesTypes.QueryValidatorParams{Address: a}), Height: h})
+				r := n.App.Query(abci.RequestQuery{Path: "custom/pos/validator", Data: nodesTypes.ModuleCdc.MustMarshalJSON(nodesTypes.QueryValidatorParams{Address: a}), Height: h})
+				if hv := s.viewAt(h); hv != nil && h > s.cfg.UpgradeHeight {
+					var got nodesTypes.Validator
+					ok := r.Code == 0 && nodesTypes.ModuleCdc.UnmarshalJSON(r.Value, &got) == nil
+					if r.Code == 0 && !ok {
+						break
+					}
+					s.judgeHistoricalNode("custom_node", addr, h, hv, got, ok)
+				}
 			case "custom_nodes":
 				_ = n.App.Query(abci.RequestQuery{Path: "custom/pos/validators", Data: nodesTypes.ModuleCdc.MustMarshalJSON(nodesTypes.QueryValidatorsParams{Page: 1, Limit: 100}), Height: h})
 			case "custom_balance":
@@ -139,6 +171,34 @@ func codecGlobals() string {
 		out += fmt.Sprintf(" %s:%d", k, codec.UpgradeFeatureMap[k])
 	}
 	return out
+}
+
+func (s *Sim) judgeHistoricalNode(path, addr string, h int64, hv *View, got nodesTypes.Validator, found bool) {
+	want, exists := hv.Validators[addr]
+	s.res.Probe("historical_answer_checked")
+	if h < s.drv.Height {
+		s.res.Probe("historical_answer_checked_below_tip")
+	}
+	switch {
+	case found != exists:
+		s.violate("C09", "historical-answer", path, fmt.Sprintf("tip %d: node %s at height %d: found=%v, block %d committed a record: %v", s.drv.Height, addr, h, found, h, exists))
+	case found && (!got.StakedTokens.Equal(want.StakedTokens) || got.Status != want.Status || got.Jailed != want.Jailed || fmt.Sprint(got.Chains) != fmt.Sprint(want.Chains) || got.ServiceURL != want.ServiceURL || !got.OutputAddress.Equals(want.OutputAddress)):
+		s.violate("C09", "historical-answer", path, fmt.Sprintf("tip %d: node %s at height %d answered stake %s status %d jailed %v chains %v, block %d committed stake %s status %d jailed %v chains %v", s.drv.Height, addr, h, got.StakedTokens, got.Status, got.Jailed, got.Chains, h, want.StakedTokens, want.Status, want.Jailed, want.Chains))
+	}
+}
+
+func (s *Sim) judgeHistoricalApp(path, addr string, h int64, hv *View, got appsTypes.Application, found bool) {
+	want, exists := hv.Apps[addr]
+	s.res.Probe("historical_answer_checked")
+	if h < s.drv.Height {
+		s.res.Probe("historical_answer_checked_below_tip")
+	}
+	switch {
+	case found != exists:
+		s.violate("C09", "historical-answer", path, fmt.Sprintf("tip %d: application %s at height %d: found=%v, block %d committed a record: %v", s.drv.Height, addr, h, found, h, exists))
+	case found && (!got.StakedTokens.Equal(want.StakedTokens) || got.Status != want.Status || got.Jailed != want.Jailed || fmt.Sprint(got.Chains) != fmt.Sprint(want.Chains) || !got.MaxRelays.Equal(want.MaxRelays)):
+		s.violate("C09", "historical-answer", path, fmt.Sprintf("tip %d: application %s at height %d answered stake %s status %d chains %v allowance %s, block %d committed stake %s status %d chains %v allowance %s", s.drv.Height, addr, h, got.StakedTokens, got.Status, got.Chains, got.MaxRelays, h, want.StakedTokens, want.Status, want.Chains, want.MaxRelays))
+	}
 }
 
 func phaseClass(p string) string {
